@@ -83,6 +83,12 @@ func cases(run *vf.Run) ([]json.RawMessage, error) {
 		case i%6 == 2:
 			s.Kind = []string{"mixed-legacy-older", "mixed-ltx-older"}[(i/6)%2]
 			s.LTXSnapshot = (i/12)%2 == 0
+		case i%6 == 4:
+			// current-format files planted between the newest legacy snapshot and the
+			// legacy WAL segments that follow it: the legacy snapshot is older than every
+			// current-format file, the newest legacy WAL segment is newer than all of them
+			s.Kind = "mixed-ltx-between"
+			s.LTXSnapshot = (i/6)%2 == 0
 		}
 		out = append(out, vf.Spec(s))
 	}
@@ -152,6 +158,10 @@ func (c *runner) wantFormat(T time.Time) string {
 		default:
 			return "v3"
 		}
+	case "ltx-between":
+		// only the request without a timestamp is made: the most recent backup of the
+		// replica is a legacy WAL segment
+		return "v3"
 	case "ltx-older":
 		switch {
 		case T.IsZero():
@@ -507,6 +517,38 @@ func runCase(run *vf.Run, raw json.RawMessage, dir string) *vf.Result {
 	case "mixed-ltx-older":
 		c.mixed = "ltx-older"
 		c.era, err = buildLTX(e, rng, s.LTXSnapshot, baseTime.Add(-12*time.Hour))
+	case "mixed-ltx-between":
+		var tSnap time.Time
+		for _, sn := range L.snaps {
+			if sn.t.After(tSnap) {
+				tSnap = sn.t
+			}
+		}
+		tail := 0
+		for _, sg := range L.segs {
+			if sg.t.After(tSnap) {
+				sg.t = sg.t.Add(48 * time.Hour)
+				if sg.present {
+					if cerr := os.Chtimes(sg.path, sg.t, sg.t); cerr != nil {
+						res.HarnessErr = cerr.Error()
+						return res
+					}
+				}
+				if sg.t.After(L.last) {
+					L.last = sg.t
+				}
+				tail++
+			}
+		}
+		if tail == 0 {
+			// no legacy WAL segment follows the newest snapshot: nothing to interleave
+			res.Count("mixed_between_not_applicable(no segment after the newest snapshot)", 1)
+			c.mixed = "legacy-older"
+			c.era, err = buildLTX(e, rng, s.LTXSnapshot, L.last.Add(10*time.Minute))
+		} else {
+			c.mixed = "ltx-between"
+			c.era, err = buildLTX(e, rng, s.LTXSnapshot, tSnap.Add(time.Hour))
+		}
 	}
 	if err != nil {
 		res.HarnessErr = err.Error()
@@ -570,6 +612,12 @@ func runCase(run *vf.Run, raw json.RawMessage, dir string) *vf.Result {
 	run1 := func() bool {
 		if !c.check("latest", time.Time{}) {
 			return false
+		}
+		if c.mixed == "ltx-between" {
+			if !(c.era.first.After(L.snaps[0].t) && c.era.last.Before(L.last)) {
+				res.HarnessErr = "mixed: current-format era is not between the legacy snapshot and the newest legacy segment"
+			}
+			return true // requests with a timestamp are ambiguous in this layout and are not made
 		}
 		firstAny, lastAny := L.first, L.last
 		if c.era != nil {
